@@ -35,7 +35,8 @@ def run(ctx):
     reps = 10 if ctx.quick() else 60
     for cls in I.implicit_methods():
         for rep in range(reps):
-            mag = 10.0 ** rng.uniform(-3, 8)
+            # half of the samples where the shape of the stability function matters (|z| ~ 0.1..100), the rest over 11 decades
+            mag = 10.0 ** (rng.uniform(-1, 2) if rep % 2 == 0 else rng.uniform(-3, 8))
             kind = rng.choice(["real", "complex", "imag-axis", "near-axis"])
             if kind == "real":
                 zr, zi = -mag, 0.0
@@ -45,7 +46,8 @@ def run(ctx):
             elif kind == "imag-axis":
                 zr, zi = 0.0, mag * rng.choice([1, -1])
             else:
-                zr, zi = -mag * 1e-6, mag
+                th = math.pi / 2 + rng.choice([1e-6, 0.02, 0.09, 0.17])        # within 10 degrees of the imaginary axis
+                zr, zi = mag * math.cos(th), mag * math.sin(th) * rng.choice([1, -1])
             # z as dyadic rationals so that the exact evaluation and the float run see the same z
             zr, zi = float(np.float32(zr)), float(np.float32(zi))
             h = rng.choice([1.0, 0.125, 2.0 ** -10, -0.5])
@@ -79,6 +81,46 @@ def run(ctx):
         ctx.count("method:" + name)
     if lines:
         ctx.sample(dict(kind="stability", op=lines[0][:160], model=outs[0][:120]))
+
+
+def search(ctx, broken):
+    """a certificate or the correspondence broke: scan the model's stability function over the left half-plane (sector grid, dense
+    near the imaginary axis) for |R(z)| > 1 or a pole, and run the real integrator at the worst points found"""
+    grid = []
+    for cls in I.implicit_methods():
+        for k in range(31):
+            mag = 10.0 ** (-1 + 0.1 * k)
+            for th in (0.0, 0.02, 0.05, 0.09, 0.14, 0.2, 0.35, 0.6, 1.0, math.pi / 2):
+                a = math.pi / 2 + th
+                zr, zi = float(np.float32(mag * math.cos(a))), float(np.float32(mag * math.sin(a)))
+                if th == 0.0:
+                    zr = 0.0
+                grid.append((cls, zr, zi))
+    outs = ctx.driver(["stab %s %s %s" % (c.__name__, q(Fr(zr)), q(Fr(zi))) for c, zr, zi in grid])
+    bad = []
+    for (cls, zr, zi), o in zip(grid, outs):
+        if o == "pole":
+            bad.append((float("inf"), cls, zr, zi))
+            continue
+        rr, ri = o.split()
+        m = abs(complex(float(Fr(rr)), float(Fr(ri))))
+        if m > 1.0 + 1e-9:
+            bad.append((m, cls, zr, zi))
+    ctx.count("search:grid-points=%d" % len(grid))
+    ctx.count("search:model-points-with-growth=%d" % len(bad))
+    bad.sort(key=lambda b: -b[0])
+    for m, cls, zr, zi in bad[:40]:
+        for h in (1.0, 0.125, -0.5):
+            lam = complex(zr, zi) / h
+            try:
+                y1, ok = one_step(cls, lam, h)
+            except Exception:
+                continue
+            if not ok:
+                continue
+            inp = dict(kind="stability", method=cls.__name__, z=[zr, zi], h=h, y1=[y1.real, y1.imag], model_abs_R=m)
+            ctx.oracle("accepted-step-does-not-grow", abs(y1) <= 1.0 + 2e-5, inp,
+                       what="|y1| = %.12g > |y0| = 1 for Re(z) <= 0 (z = %r); the model's |R(z)| = %.6g" % (abs(y1), complex(zr, zi), m))
 
 
 def replay(rep):
